@@ -162,6 +162,7 @@ func registerVF(e *Engine) {
 		m.res.Labels["cover:"+m.concreteString(args[0], "cover label")]++
 		return nil
 	}
+	vf["vf_Tier"] = func(fr *frame, args []value) value { return fr.m.eng.Tier }
 	vf["vf_Symbolic"] = func(fr *frame, args []value) value { return true }
 	// vf_NoPanic(f func(), label): a panic inside f is a violation of label
 	vf["vf_NoPanic"] = func(fr *frame, args []value) value {
